@@ -700,6 +700,15 @@ func (r *Run) Loop() {
 			}
 		}
 		if unfinished == 0 && parked == 0 {
+			if r.Sleepers.Load() > 0 && idleRounds < 8 {
+				// a background goroutine is asleep inside a slow device: the run
+				// is over when it has come out (and parked again, or gone idle)
+				idleRounds++
+				raceDisable()
+				time.Sleep(24 * time.Hour)
+				raceEnable()
+				continue
+			}
 			return
 		}
 		// external events are offered only while named tasks are unfinished
